@@ -70,7 +70,12 @@ CSS_VALUES = ["color: red", "background: url(javascript:alert(1))", "background:
               "background: rgb(1%,2%,3%)", "content: '\\'", "color: red;x", "width: calc(1px + 2px)", "color: red; fill: url(#a)",
               "fill: blue", "stroke-width: 2", "background: transparent none", "border-color: #ff0000 aqua", "margin: -1px", "font: 12px/14px serif",
               "color: red\n; width: 1px", "list-style: url(x)", "cursor: url(x), auto", "background:\turl(x)", "color: &#x72;ed", "top: 1px; left: 2px",
-              "text-decoration: underline; display: none", "background: url&#40;x&#41;", "background: url&lpar;x&rpar;"]
+              "text-decoration: underline; display: none", "background: url&#40;x&#41;", "background: url&lpar;x&rpar;",
+              # shorthand properties (background*, border*, margin*, padding*) with one word that is neither an allowed keyword
+              # nor a colour / length: single characters, odd number spellings
+              "border: 1px solid z", "padding: x", "margin: 1e9px", "border: 1px r", "margin: 1x2", "padding: -", "margin: 1,5em", "margin: 1/2px",
+              "border-top: 1px q red", "background-position: 1_2", "margin: 9:9", "padding: 1 2 3 é", "border-width: 1~", "margin: 12.34px 1.5em",
+              "border: thin dotted", "padding: 0 auto 1pt", "background-color: #fff; border: 1px bogus"]
 
 URI_TARGETS = None
 # SVG presentation attributes whose value may be a url() reference (pinned, as the URI-valued set below)
